@@ -7,7 +7,8 @@ commits in each source format {pack-0.92, rich-root-pack, 1.9, 1.14, knit, dirst
 thorough adds 1.9-rich-root, 1.14-rich-root, 1.6, dirstate} in every layout {standalone tree
 with pending changes (modified, added, renamed file), branch without tree, heavyweight
 checkout with pending changes, lightweight checkout with pending changes, shared repository
-with two dependent branches}, on /dev/shm, upgraded with breezy.upgrade.upgrade() to 2a.
+with two dependent branches}, on /dev/shm, upgraded with breezy.upgrade.upgrade() to 2a; and 2a
+sources upgraded to development-colo (ConvertMetaToColo).
 (b) Reconfigurations: every path of 2 (quick) / 3 (thorough) transitions over {to_branch,
 to_tree, to_checkout, to_lightweight_checkout, to_use_shared, to_standalone} (every shorter
 path is a prefix) from a tree with its own repository / a tree in a shared repository, with
@@ -154,13 +155,13 @@ def first_diff(before, after):
 
 # ---- (a) upgrades -------------------------------------------------------------------
 
-def upgrade_case(fmt, dag, layout, acc):
+def upgrade_case(fmt, dag, layout, acc, to="2a"):
     from breezy.controldir import ControlDir
     from breezy.upgrade import upgrade
     base = boot.scratch("c52u")
     strict = fmt in RICH_ROOT
     revids = [gen.revid(i) for i in range(len(dag))]
-    detail = {"format": fmt, "dag": [list(p) for p in dag], "layout": layout}
+    detail = {"format": fmt, "to": to, "dag": [list(p) for p in dag], "layout": layout}
     try:
         locs = []       # (path, revids whose testaments must survive)
         if layout in ("tree", "branch"):
@@ -204,7 +205,7 @@ def upgrade_case(fmt, dag, layout, acc):
         if len(dag) >= 2:
             acc.nt((fmt, dag, layout))
         try:
-            excs = upgrade(target, fmt_obj("2a"))
+            excs = upgrade(target, fmt_obj(to))
         except Exception as e:  # noqa
             acc.violation("upgrade:%s:%s:%s" % (layout, type(e).__name__, _where(e)), dict(detail, error=str(e)[:200]))
             return
@@ -230,7 +231,7 @@ def upgrade_case(fmt, dag, layout, acc):
                 return
         # the upgraded thing is in the target format now
         cd = ControlDir.open(target)
-        if cd.needs_format_conversion(fmt_obj("2a")):
+        if cd.needs_format_conversion(fmt_obj(to)):
             acc.violation("upgrade:%s:still-needs-conversion" % layout, detail)
         acc.outcomes.add((layout, "upgraded"))
     finally:
@@ -254,7 +255,10 @@ def _work_upgrade(chunk):
     _quiet()
     acc = par.Acc()
     for i, fmt, dag, layout in chunk:
-        upgrade_case(fmt, dag, layout, acc)
+        if fmt == "2a":
+            upgrade_case(fmt, dag, layout, acc, to="development-colo")
+        else:
+            upgrade_case(fmt, dag, layout, acc)
         if i < 2:
             acc.sample({"upgrade": fmt, "dag": [list(p) for p in dag], "layout": layout})
     return acc
@@ -438,7 +442,7 @@ def run(ctx):
     formats = ctx.q(FORMATS_Q, FORMATS_T)
     dags = list(gen.dags(n, min_nodes=1))
     up_items = [(i, fmt, dag, layout) for i, (fmt, dag, layout) in
-                enumerate(itertools.product(formats, dags, LAYOUTS))]
+                enumerate(itertools.product(formats + ("2a",), dags, LAYOUTS))]
     acc_u = par.merge(par.pmap(_work_upgrade, up_items, seed=ctx.seed, chunks_per_job=8))
     L = ctx.q(2, 3)
     rformats = ctx.q(("2a",), ("2a", "1.14"))
@@ -479,3 +483,15 @@ def run(ctx):
         "samples": acc_u.samples[:2] + acc_r.samples[:2],
         "exhaustive": True,
     }
+
+
+def replay(ctx, data):
+    d = data["first"]
+    _quiet()
+    if "path" in d:
+        acc = Acc()
+        reconfigure_case(d["format"], d["start"], d["pending_changes"], tuple(d["path"]), acc)
+    else:
+        acc = par.Acc()
+        upgrade_case(d["format"], tuple(tuple(p) for p in d["dag"]), d["layout"], acc, to=d.get("to", "2a"))
+    return not any(sig == data["signature"] for sig, _ in acc.violations)
